@@ -28,6 +28,29 @@ def dotted(node) -> str:
     return "?"
 
 
+SET_FUNCS = set()   # bare names of functions of the package whose return value is a set (filled by generate)
+
+
+def set_returning_functions(trees):
+    """names of the functions whose `return` expression is set-typed according to the same local inference
+    (iterated, so that a function returning another set-returning function's result is found too)"""
+    found = set()
+    for _ in range(3):
+        SET_FUNCS.clear()
+        SET_FUNCS.update(found)
+        for tree in trees:
+            for fn in ast.walk(tree):
+                if isinstance(fn, (ast.FunctionDef, ast.AsyncFunctionDef)):
+                    w = Walker("?")
+                    w.scan_set_variables(fn)
+                    for n in ast.walk(fn):
+                        if isinstance(n, ast.Return) and n.value is not None and w.is_set_expr(n.value):
+                            found.add(fn.name)
+    SET_FUNCS.clear()
+    SET_FUNCS.update(found)
+    return found
+
+
 class Walker(ast.NodeVisitor):
     def __init__(self, rel):
         self.rel = rel
@@ -59,6 +82,8 @@ class Walker(ast.NodeVisitor):
             if isinstance(e.func, ast.Attribute) and e.func.attr in (
                     "intersection", "union", "difference", "symmetric_difference", "copy") \
                     and self.is_set_expr(e.func.value):
+                return True
+            if n.split(".")[-1] in SET_FUNCS:      # a function of the package that returns a set
                 return True
         if isinstance(e, ast.Name):
             return e.id in self.setvars
@@ -165,6 +190,13 @@ class Walker(ast.NodeVisitor):
             add("rng-draw", name, True)
         elif name in ("hash", "id") and len(node.args) == 1:
             add("hash-id", name, False)
+        elif last in ("keys", "values", "items") and isinstance(node.func, ast.Attribute) \
+                and isinstance(node.func.value, ast.Attribute) \
+                and node.func.value.attr in ("peptide_map", "protein_map", "shared_peptides"):
+            # the maps of a Proteins object are filled by read_fasta while it enumerates sets, so their KEY ORDER
+            # depends on the hash seed: an enumeration of them is harmless only when sorted or used for membership
+            how = "sorted" if self.wrapped_in(("sorted",)) else "isin" if self.wrapped_in(("isin",)) else "raw"
+            add("map-order", f"{how}:{node.func.value.attr}.{last}", how != "raw")
         elif name in ("time.time", "time.perf_counter", "uuid.uuid4", "os.getpid", "datetime.datetime.now",
                       "datetime.now"):
             add("clock", name, False)
@@ -232,6 +264,13 @@ class Walker(ast.NodeVisitor):
 def generate(repo: Path, outdir: Path, write_if_changed):
     effects, fileops = [], []
     consts = []
+    trees = []
+    for p in sorted((repo / "mokapot").rglob("*.py")):
+        try:
+            trees.append(ast.parse(p.read_text()))
+        except SyntaxError:
+            pass
+    set_returning_functions(trees)
     for p in sorted((repo / "mokapot").rglob("*.py")):
         rel = str(p.relative_to(repo))
         try:
